@@ -19,7 +19,10 @@ import (
 
 	"github.com/shutter-network/rolling-shutter/rolling-shutter/shdb"
 
+	obskeyper "github.com/shutter-network/rolling-shutter/rolling-shutter/chainobserver/db/keyper"
+
 	"verif/harness/fakepg"
+	"verif/harness/sm"
 )
 
 // Where is an abstract crash point of KeyperCrashMC (the ghost record cr).
@@ -74,7 +77,14 @@ type Scenario struct {
 	AccBlock  int    `json:"accBlock"`
 	SyncEvery int    `json:"syncEvery"` // the keyper under test calls SyncAppWithDB only after the blocks h with
 	SyncOff   int    `json:"syncOff"`   // h % SyncEvery == SyncOff (and after the last block): catch-up over several blocks
-	LateBlock int    `json:"lateBlock"` // block carrying the check-in of the Byzantine keyper (its key is unknown at eon start); 0: checked in before
+	// Gov: governance prefix: the run starts before the keyper set of the eon is registered; the keyper
+	// under test queues its own BatchConfig vote through KeyperCore.handleOnChainChanges; the other
+	// keypers' votes register the config in block 0, their BlockSeen reports start it with block 1.
+	// DownUntil > 0: the keyper process dies right after the transaction that queued its vote and is
+	// started again when block DownUntil is open.
+	Gov       bool `json:"gov"`
+	DownUntil int  `json:"downUntil"`
+	LateBlock int  `json:"lateBlock"` // block carrying the check-in of the Byzantine keyper (its key is unknown at eon start); 0: checked in before
 }
 
 func (sc Scenario) syncNow(h int) bool {
@@ -95,6 +105,7 @@ func scenarios() []Scenario {
 		// lag2 also has a keyper checking in late (block 1): its evaluation is queued as a second poly-eval
 		// message by the transaction of block 1, in the same SyncAppWithDB call that queued the first
 		{Name: "lag2", Cfg: Cfg{N: 3, T: 2, Byz: []int{3}, PhaseLen: 3}, Kut: 1, DealBlock: 2, AccBlock: 4, SyncEvery: 2, SyncOff: 1, LateBlock: 1},
+		{Name: "gov-down", Cfg: Cfg{N: 3, T: 2, Byz: []int{3}, PhaseLen: 3}, Kut: 1, DealBlock: 2, AccBlock: 4, SyncEvery: 1, Gov: true, DownUntil: 2},
 		{Name: "lag3", Cfg: Cfg{N: 3, T: 2, Byz: []int{3}, PhaseLen: 3}, Kut: 1, DealBlock: 1, AccBlock: 4, SyncEvery: 3, SyncOff: 0, LateBlock: 0},
 	}
 }
@@ -165,6 +176,10 @@ func (r *crashRun) noteQueued() {
 // point wh, and with which fault.
 func (r *crashRun) matchWhere(wh *Where, ev fakepg.Event) (fakepg.Fault, bool) {
 	switch wh.Pc {
+	case "gov":
+		if r.stage == "gov" && !ev.InTx && ev.Stmt != "commit" {
+			return fakepg.DropBefore, true
+		}
 	case "sync":
 		if r.stage != "sync" {
 			return fakepg.None, false
@@ -286,10 +301,16 @@ func (r *crashRun) arm() {
 	}
 }
 
-func (r *crashRun) restart() error {
+func (r *crashRun) restart() error { return r.restartOpt(true) }
+
+// restartOpt: a restart after an injected crash restarts the numbering of the protocol messages
+// (second faults count from there); the restart after the scheduled outage does not.
+func (r *crashRun) restartOpt(resetCount bool) error {
 	r.mu.Lock()
 	r.dead = false
-	r.count = 0
+	if resetCount {
+		r.count = 0
+	}
 	r.mu.Unlock()
 	if err := r.kut.start(context.Background()); err != nil {
 		return err
@@ -397,6 +418,10 @@ func (r *crashRun) absMsg(m *shmsg.Message) J {
 		return J{"k": "result", "p": 0}
 	case m.GetCheckIn() != nil:
 		return J{"k": "checkin", "p": 0}
+	case m.GetBatchConfig() != nil:
+		return J{"k": "vote", "p": 0}
+	case m.GetBlockSeen() != nil:
+		return J{"k": "bseen", "p": 0}
 	}
 	return J{"k": "other", "p": 0}
 }
@@ -436,7 +461,13 @@ func (r *crashRun) O() J {
 	var outRows []kprdb.TendermintOutgoingMessage
 	eonkeys := 0
 	var pend []kprdb.PolyEval
+	cfgseen := false
 	n.PG.View(func(db *fakepg.DB) {
+		for _, bc := range db.TendermintBatchConfig {
+			if bc.KeyperConfigIndex == 1 {
+				cfgseen = true
+			}
+		}
 		for _, pe := range db.PolyEvals {
 			if uint64(pe.Eon) == w.Eon {
 				pend = append(pend, pe)
@@ -541,9 +572,12 @@ func (r *crashRun) O() J {
 	for _, id := range ids {
 		queued = append(queued, r.everQ[int32(id)])
 	}
-	return J{"db": J{"sync": syncH, "rows": rows, "pure": pure, "rec": rec, "evp": evp, "loadable": loadable, "outbox": outbox, "res": res, "eonkeys": eonkeys},
+	return J{"db": J{"sync": syncH, "rows": rows, "pure": pure, "rec": rec, "cfgseen": cfgseen, "evp": evp, "loadable": loadable, "outbox": outbox, "res": res, "eonkeys": eonkeys},
 		"sent": sent, "queued": queued}
 }
+
+// govActivation is the activation block number of keyper set 1 in the governance prefix.
+const govActivation = 100
 
 func decodeTx(tx []byte) *shmsg.Message {
 	raw, err := base64Decode(tx)
@@ -583,8 +617,18 @@ func (r *crashRun) kutStep(what string, blk int, f func()) error {
 			break
 		}
 		mids = append(mids, r.O())
-		if err := r.restart(); err != nil {
-			return err
+		for tries := 0; ; tries++ {
+			err := r.restart()
+			if err == nil {
+				break
+			}
+			r.mu.Lock()
+			again := r.dead && tries < 4 // the next fault hit the starting process: it dies again
+			r.mu.Unlock()
+			if !again {
+				return err
+			}
+			mids = append(mids, r.O())
 		}
 	}
 	r.emit(what, blk, mids, np)
@@ -614,7 +658,7 @@ func executeCrash(sc Scenario, seed int64, run int, faults []Fault, twin []J, re
 	if sc.LateBlock > 0 && len(sc.Cfg.Byz) > 0 {
 		late = sc.Cfg.Byz[0]
 	}
-	w, err := NewWorldOpts(sc.Cfg, seed, WorldOpts{Hold: sc.Kut, Late: late})
+	w, err := NewWorldOpts(sc.Cfg, seed, WorldOpts{Hold: sc.Kut, Late: late, FirstEon: sc.Gov})
 	if err != nil {
 		return nil, err
 	}
@@ -631,6 +675,21 @@ func executeCrash(sc Scenario, seed int64, run int, faults []Fault, twin []J, re
 	if len(sc.Cfg.Byz) > 0 {
 		byz = sc.Cfg.Byz[0]
 	}
+	if sc.Gov {
+		// what the chain observer of the keyper under test has seen on the main chain: keyper set 1
+		var addrs []common.Address
+		for i := 1; i <= N; i++ {
+			addrs = append(addrs, w.addr(i))
+		}
+		err := obskeyper.New(r.kut.pool).InsertKeyperSet(context.Background(), obskeyper.InsertKeyperSetParams{
+			KeyperConfigIndex: 1, ActivationBlockNumber: govActivation, Keypers: shdb.EncodeAddresses(addrs), Threshold: int32(sc.Cfg.T)})
+		if err != nil {
+			return nil, err
+		}
+		r.mu.Lock()
+		r.count, r.total, r.wire = 0, 0, nil
+		r.mu.Unlock()
+	}
 	r.lines = append(r.lines, CLine{K: "new", Run: run, Mids: []J{}, St: r.O(), Keys: []J{}})
 	if twin != nil {
 		r.lines[0].Twin = twin[0]
@@ -638,13 +697,49 @@ func executeCrash(sc Scenario, seed int64, run int, faults []Fault, twin []J, re
 		r.lines[0].Twin = r.lines[0].St
 	}
 	syncKut := func(blk int) error { return r.kutStep("sync", blk, func() { w.syncNode(r.kut) }) }
-	if sc.syncNow(0) {
+	first, isDown := 1, false
+	if sc.Gov {
+		first = 0
+		if err := r.kutStep("gov", 0, func() {
+			w.guard("handleOnChainChanges", func() error { return r.kut.GovStep(context.Background(), govActivation) })
+		}); err != nil {
+			return r, err
+		}
+		isDown = sc.DownUntil > 0 // the process is gone; nothing of it runs until it is started again
+	} else if sc.syncNow(0) {
 		if err := syncKut(0); err != nil {
 			return r, err
 		}
 	}
 	last := sc.Cfg.LastBlock()
-	for b := 1; b <= last; b++ {
+	for b := first; b <= last; b++ {
+		if sc.Gov && b <= 1 {
+			// the other keypers: config votes in block 0 (registered, eon started), BlockSeen reports in
+			// block 1 (config started at the end of that block)
+			cnt := 0
+			for i := 1; i <= N && cnt < sc.Cfg.T; i++ {
+				if i == sc.Kut {
+					continue
+				}
+				cnt++
+				tx := w.U.Concretise(sm.Tx{K: "vote", S: tokOf(i), N: uint64(800 + i), Cfg: sm.Cfg{Keypers: w.toks, Thr: uint64(sc.Cfg.T), Act: govActivation, Idx: 1}})
+				if b == 1 {
+					tx = w.U.Concretise(sm.Tx{K: "seen", S: tokOf(i), N: uint64(850 + i), B: govActivation})
+				}
+				if chk, res, _ := w.Chain.Submit(tx); chk.Code != 0 || res.Code != 0 {
+					return r, fmt.Errorf("governance prefix: transaction of k%d refused in block %d: %s %s", i, b, chk.Log, res.Log)
+				}
+			}
+		}
+		if isDown && b == sc.DownUntil {
+			isDown = false
+			if err := r.kutStep("up", b, func() { r.restartOpt(false) }); err != nil {
+				return r, err
+			}
+			if err := syncKut(b - 1); err != nil { // a starting keyper first catches up
+				return r, err
+			}
+		}
 		// Byzantine keyper: deals correctly in block 1, accuses the keyper under test in AccBlock
 		if byz > 0 && b == sc.DealBlock {
 			vals := blankVals(N)
@@ -671,8 +766,10 @@ func executeCrash(sc Scenario, seed int64, run int, faults []Fault, twin []J, re
 				w.flush(n, 10)
 			}
 		}
-		if err := r.kutStep("post", b, func() { w.flush(r.kut, 10) }); err != nil {
-			return r, err
+		if !isDown {
+			if err := r.kutStep("post", b, func() { w.flush(r.kut, 10) }); err != nil {
+				return r, err
+			}
 		}
 		w.Chain.CloseBlock()
 		for i := 1; i <= N; i++ {
@@ -684,6 +781,13 @@ func executeCrash(sc Scenario, seed int64, run int, faults []Fault, twin []J, re
 		r.stage, r.blk = "close", b
 		r.step++
 		r.mu.Unlock()
+		if isDown {
+			r.emit("closedown", b, nil, len(w.Panics))
+			if b < last {
+				w.Chain.OpenBlock()
+			}
+			continue
+		}
 		r.emit("close", b, nil, len(w.Panics))
 		if sc.syncNow(b) {
 			if err := syncKut(b); err != nil {
